@@ -375,7 +375,8 @@ def step_correspondence(prop, tier, seed):
         else:
             fails.append(Failure("correspondence", f"model/implementation disagreement on {c['sig']}",
                                  f"impl={c['impl'][:400]} model={str(c['model'])[:400]}", case=c,
-                                 oracle=prop.get("disagreement_is_violation")))
+                                 oracle=(prop.get("disagreement_is_violation")
+                                         if c["input"].split()[:1] == [str(prop.get("disagreement_component", prop["jobs"][0]["comp_num"]))] else None)))
         if n_other >= 8:
             break
     # in-kernel cross-check of a sample
